@@ -50,6 +50,8 @@ def run(prog, rep):
     rep.rule("E5.edge", "edge search/insert shape")
     e5.add_graph_node_shape(prog, rep, "E5.node")
     rep.rule("E5.node", "dense node references")
+    e5.variable_map_shape(prog, rep, "E5.var")
+    rep.rule("E5.var", "VariableMap::add refuses every second definition; VariableMap::set writes mutable bindings only")
     # read accessors: iter_edges, edge_count, node_count read the whole container untouched
     rep.rule("C17.read", "read accessors expose the containers as they are (whole vector, stored order)")
     table = {("tsg::graph::GraphNode", "iter_edges"): r"^Iterator::map\(slice::iter\(&\*Deref::deref\(&\*arg:self\.outgoing_edges\)\), iter_edges::\{closure#0\}\{\}\)$",
@@ -91,6 +93,22 @@ def run(prog, rep):
                   "the lookup a nested set performs on its outer set is not the outer set's full lookup: %s" % r[:120])
     else:
         rep.violation("C17.get", "anchor-lost:Globals as Variables", "", "trait impl not found")
+    # nested(): the new set always keeps the given set as its context
+    nf = [f for f in prog.fns.values() if f.name == "nested" and f.self_path == "tsg::variables::Globals"]
+    if len(nf) == 1:
+        f = nf[0]
+        tr = Tracer(f.body)
+        aggs = [st for b in sorted(f.body.reachable()) for st in f.body.blocks[b]["stmts"] if st["k"] == "assign" and st["rv"]["k"] == "aggregate" and st["rv"].get("adt") == "tsg::variables::Globals"]
+        ok = len(aggs) == 1
+        cv = ""
+        if ok:
+            d = dict(zip(aggs[0]["rv"]["fields"], aggs[0]["rv"]["ops"]))
+            cv = canon(tr.operand(d["context"]))
+            ok = re.match(r"^option::Option::Some\{(cast\()?&?\*?arg:context\)?\}$", cv) is not None and not [1 for b in sorted(f.body.reachable()) if f.body.term(b)["k"] == "switch"]
+        rep.check(ok, "C17.get", "Globals::nested :: context kept", f.loc(), "Globals { context: Some(context), values: {} } on every path",
+                  "a nested variable set does not always keep the set it was nested in as its context (%s): bindings further out become invisible" % cv[:100])
+    else:
+        rep.violation("C17.get", "anchor-lost:Globals::nested", "", "not found")
     # VariableMap::set: parent only on Vacant
     vs = [f for f in prog.fns.values() if f.self_path == "tsg::variables::VariableMap" and f.name == "set"]
     if len(vs) == 1:
